@@ -283,8 +283,8 @@ func capturedVarAlloc(parent, cl *ssa.Function, name string) *ssa.Alloc {
 		return a
 	}
 	if envMethods[cl] != nil {
-		if mc := envMakeClosure(parent, cl); mc != nil && len(mc.Bindings) == 1 {
-			a, _ := mc.Bindings[0].(*ssa.Alloc)
+		if bnd := envBinding(parent, cl); bnd != nil {
+			a, _ := bnd.(*ssa.Alloc)
 			return a
 		}
 		return nil
